@@ -95,6 +95,23 @@ theorem readPacketK_frame {σ : Type} (x : StreamXform σ) (z : ZlibOps) (c : Bo
   rw [e1]
   exact ⟨rfl, e2⟩
 
+/-- every successful `read_packet` consumes at least one byte of the stream -/
+theorem readPacketK_consumes {σ : Type} (x : StreamXform σ) (z : ZlibOps) (c : Bool) (k : Sock σ)
+    (p : Nat × Bytes) (h : (readPacketK x z c k).1 = .ok p) :
+    (readPacketK x z c k).2.rem < k.rem := by
+  have hs := readPacketK_spec x z c k
+  cases hd : parsePacket z c (ahead x k) with
+  | error e =>
+    obtain ⟨k', e1⟩ := hs.2 e hd
+    rw [e1] at h; cases h
+  | ok pr =>
+    obtain ⟨p', rest⟩ := pr
+    obtain ⟨k', e1, e2⟩ := hs.1 p' rest hd
+    have := parsePacket_lt z c _ p' rest hd
+    rw [e1]
+    show k'.rem < k.rem
+    rw [← ahead_length x k', ← ahead_length x k, e2]; exact this
+
 /-! ## writer side -/
 
 theorem frameSends_flatten' (z : ZlibOps) (thr : Option Int) (payload : Bytes) :
